@@ -17,7 +17,7 @@ RULE = ('configuration = swarm size 1..6, argument dictionary (random tuples per
         'run-to-block policies. distinct_nontrivial = distinct (configuration, interleaving signature).')
 ASSUMPTIONS = ['members are duck-typed SyncCrazyflie stand-ins (open_link / close_link / cf); a subset of cases uses real '
                'SyncCrazyflie objects over the sim:// driver']
-REQUIRED = ['mon.real_members_closed_while_their_parameter_callbacks_keep_the_incoming_thread_busy', 'mon.parallel_safe', 'mon.parallel', 'mon.sequential', 'mon.open_failures', 'mon.double_open', 'mon.real_members',
+REQUIRED = ['mon.real_swarm_opened_a_third_time_after_two_failures', 'mon.real_members_closed_while_their_parameter_callbacks_keep_the_incoming_thread_busy', 'mon.parallel_safe', 'mon.parallel', 'mon.sequential', 'mon.open_failures', 'mon.double_open', 'mon.real_members',
             'mon.actions_invoked', 'mon.argument_dictionaries_in_another_order',
             'mon.real_swarm_reopened_with_a_link_dropping_in_the_handshake', 'mon.actions_raising_errors_without_a_text_argument']
 DESC_TIMEOUT = 900
@@ -395,6 +395,25 @@ def run_real(desc, ctx):
             ob['fault_fired'] = spec.faults_fired
             if ob['reopen_exc'] is None:
                 sw.close_links()
+            elif desc['seed'] % 4 == 0:
+                # ... and the application tries once more; the link of the same member drops again, a little later in the set-up
+                fired = spec.faults_fired
+                spec.fail_after_tx = spec.fail_after_rx = None
+                spec.sess_tx = spec.sess_rx = 0
+                if rnd.random() < 0.5:
+                    spec.fail_after_rx = rnd.randint(2, 9)
+                else:
+                    spec.fail_after_tx = rnd.randint(3, 9)
+                s.horizon = s.now + 300.0
+                try:
+                    sw.open_links()
+                    ob['third_exc'] = None
+                except Exception as e:  # noqa
+                    ob['third_exc'] = repr(e)[:200]
+                s.sleep(1.0)
+                ob['third'] = {'fault_fired': spec.faults_fired > fired, 'open_after': [u for u, scf in sw._cfs.items() if scf.is_link_open()]}
+                if ob['third_exc'] is None:
+                    sw.close_links()
     reopen = bad is None and desc['seed'] % 2 == 0
     if busy:
         _, abort, sch = harness.sched_case(fn, seed=desc['seed'], policy='random', horizon=2000.0, line_p=0.01,
@@ -418,6 +437,11 @@ def run_real(desc, ctx):
         if ob.get('reopen_exc') is None or ob.get('open_after_reopen'):
             ctx.violate('swarm:real:reopen-with-failing-member-not-raised-or-links-left-open',
                         dict(info, victim=ob.get('victim'), raised=ob.get('reopen_exc'), open=ob.get('open_after_reopen')))
+    if abort is None and ob.get('third') and ob['third']['fault_fired']:
+        ctx.count('mon.real_swarm_opened_a_third_time_after_two_failures')
+        if ob.get('third_exc') is None or ob['third']['open_after']:
+            ctx.violate('swarm:real:second-failing-open-not-raised-or-links-left-open',
+                        dict(info, raised=ob.get('third_exc'), open=ob['third']['open_after']))
     if abort is not None or sch.deaths:
         ctx.violate('swarm:real:hang-or-thread-death', dict(info, abort=str(abort), threads=getattr(abort, 'table', None),
                                                           deaths=[d[1] for d in sch.deaths][:2]))
